@@ -11,15 +11,88 @@ set_option linter.unusedSimpArgs false
 namespace FlatM
 open Net
 
-/-- every combinational leaf's output holds its function of the CURRENT wire values -/
+/-! ### `dedupLast` -/
+
+theorem dedupLast_sub {α : Type} (l : List (Nat × α)) : ∀ x, x ∈ dedupLast l → x ∈ l := by
+  induction l with
+  | nil => intro x h; cases h
+  | cons a l ih =>
+    intro x hx
+    simp only [dedupLast] at hx
+    split at hx
+    · exact List.mem_cons_of_mem _ (ih x hx)
+    · simp only [List.mem_cons] at hx
+      rcases hx with e | hx
+      · simp [e]
+      · exact List.mem_cons_of_mem _ (ih x hx)
+
+theorem dedupLast_keys {α : Type} (l : List (Nat × α)) : ∀ k, k ∈ (dedupLast l).map (·.1) ↔ k ∈ l.map (·.1) := by
+  induction l with
+  | nil => intro k; simp [dedupLast]
+  | cons a l ih =>
+    intro k
+    simp only [dedupLast]
+    split
+    · rename_i h
+      rw [ih k]
+      simp only [List.map_cons, List.mem_cons]
+      constructor
+      · exact Or.inr
+      · rintro (e | h')
+        · rcases List.any_eq_true.mp h with ⟨y, hy, hyk⟩
+          rw [e]
+          exact List.mem_map.mpr ⟨y, hy, by simpa using hyk⟩
+        · exact h'
+    · simp only [List.map_cons, List.mem_cons, ih k]
+
+theorem dedupLast_nodup {α : Type} (l : List (Nat × α)) : ((dedupLast l).map (·.1)).Nodup := by
+  induction l with
+  | nil => simp [dedupLast]
+  | cons a l ih =>
+    simp only [dedupLast]
+    split
+    · exact ih
+    · rename_i h
+      simp only [List.map_cons, List.nodup_cons]
+      refine ⟨?_, ih⟩
+      intro hmem
+      rw [dedupLast_keys] at hmem
+      apply h
+      rcases List.mem_map.mp hmem with ⟨y, hy, e⟩
+      exact List.any_eq_true.mpr ⟨y, hy, by simp [e]⟩
+
+theorem dedupLast_of_nodup {α : Type} (l : List (Nat × α)) (h : (l.map (·.1)).Nodup) : dedupLast l = l := by
+  induction l with
+  | nil => rfl
+  | cons a l ih =>
+    simp only [List.map_cons, List.nodup_cons] at h
+    simp only [dedupLast]
+    have : l.any (·.1 == a.1) = false := by
+      rw [Bool.eq_false_iff]
+      intro hany
+      rcases List.any_eq_true.mp hany with ⟨y, hy, e⟩
+      exact h.1 (List.mem_map.mpr ⟨y, hy, by simpa using e⟩)
+    rw [this]
+    simp [ih h.2]
+
+theorem outs_single (c : CLeaf) (h : c.more = []) : c.outs = [(c.out, c.py)] := by
+  simp [CLeaf.outs, h, dedupLast]
+
+/-- every combinational leaf's outputs hold their functions of the CURRENT wire values -/
 def CombFix (D : NetD) (V : Nat → Nat) : Prop :=
-  ∀ c, c ∈ D.combs → V c.out = Bits.put (D.wd c.out) (c.py (c.ins.map V))
+  ∀ c, c ∈ D.combs → ∀ of, of ∈ c.outs → V of.1 = Bits.put (D.wd of.1) (of.2 (c.ins.map V))
+
+theorem CombFix.single {D : NetD} {V : Nat → Nat} (h : CombFix D V) (c : CLeaf) (hc : c ∈ D.combs) (hm : c.more = []) :
+    V c.out = Bits.put (D.wd c.out) (c.py (c.ins.map V)) :=
+  h c hc (c.out, c.py) (by rw [outs_single c hm]; simp)
 
 def NetD.reads (D : NetD) (k : Nat) : List Nat := match D.combs[k]? with | some c => c.ins | none => []
-def NetD.writes (D : NetD) (k : Nat) : List Nat := match D.combs[k]? with | some c => [c.out] | none => []
+def NetD.writes (D : NetD) (k : Nat) : List Nat := match D.combs[k]? with | some c => c.outs.map (·.1) | none => []
 
 theorem leaf_prop (D : NetD) (k : Nat) (v : Val) (x : Int) :
-    (D.leaf k).prop v x = (x, match D.combs[k]? with | some c => [(c.out, c.py (c.ins.map v))] | none => []) := by
+    (D.leaf k).prop v x = (x, match D.combs[k]? with
+      | some c => c.outs.map fun of => (of.1, of.2 (c.ins.map v))
+      | none => []) := by
   unfold NetD.leaf
   cases h : D.combs[k]? with
   | some c => rfl
@@ -49,11 +122,15 @@ def NetD.comb (D : NetD) : C04.Comb D.design where
     show ((D.leaf k).prop v x).2.map Prod.fst = D.writes k
     rw [leaf_prop]
     unfold NetD.writes
-    cases D.combs[k]? <;> rfl
+    cases D.combs[k]? with
+    | none => rfl
+    | some c => simp [List.map_map, Function.comp_def]
   writes_nodup := by
     intro k
     unfold NetD.writes
-    cases D.combs[k]? <;> simp
+    cases D.combs[k]? with
+    | none => simp
+    | some c => exact dedupLast_nodup _
 
 /-- the schedule is an evaluation order (what the sorter guarantees, C04 Part A / `topoOK_of_sorted`) that contains
     every combinational leaf -/
@@ -65,23 +142,25 @@ theorem wput (w : Nat) (v : Int) : (Gen.Wire.put (w : Int) v).toNat = Bits.put w
 
 /-- **C04 ⇒** after `propagateAll` every combinational output is at its fixpoint value -/
 theorem propagate_combfix (D : NetD) (h : D.SchedOK) (s : State Int) : CombFix D (propagateAll D.design s).val := by
-  intro c hc
+  intro c hc of hof
   obtain ⟨i, hi, hci⟩ := List.mem_iff_getElem.mp hc
   have hget : D.combs[i]? = some c := by rw [List.getElem?_eq_getElem hi, hci]
   have hfix := C04.propagate_fixpoint D.design D.comb D.order h.1 s i (h.2 i hi)
   have : ((D.design.leaf i).prop (List.foldl (propLeaf D.design) s D.order).val (s.st i)).2
-      = [(c.out, c.py (c.ins.map (List.foldl (propLeaf D.design) s D.order).val))] := by
+      = c.outs.map fun of => (of.1, of.2 (c.ins.map (List.foldl (propLeaf D.design) s D.order).val)) := by
     show ((D.leaf i).prop _ _).2 = _
     rw [leaf_prop, hget]
-  have h2 := hfix (c.out, c.py (c.ins.map (List.foldl (propLeaf D.design) s D.order).val)) (by rw [this]; simp)
+  have h2 := hfix (of.1, of.2 (c.ins.map (List.foldl (propLeaf D.design) s D.order).val))
+    (by rw [this]; exact List.mem_map.mpr ⟨of, hof, rfl⟩)
   unfold propagateAll
-  show (List.foldl (propLeaf D.design) s D.design.order).val c.out = _
+  show (List.foldl (propLeaf D.design) s D.design.order).val of.1 = _
   rw [show D.design.order = D.order from rfl, h2]
   simp only [C04.mval]
   exact wput _ _
 
 /-- nets no combinational leaf drives keep their value -/
-theorem propagate_val_other (D : NetD) (s : State Int) (w : Nat) (hw : ∀ c, c ∈ D.combs → c.out ≠ w) :
+theorem propagate_val_other (D : NetD) (s : State Int) (w : Nat)
+    (hw : ∀ c, c ∈ D.combs → ∀ o, o ∈ c.outs.map (·.1) → o ≠ w) :
     (propagateAll D.design s).val w = s.val w := by
   unfold propagateAll
   apply C04.fold_propLeaf_val_other D.design D.comb
@@ -92,8 +171,7 @@ theorem propagate_val_other (D : NetD) (s : State Int) (w : Nat) (hw : ∀ c, c 
   | none => rw [hc] at hmem; cases hmem
   | some c =>
     rw [hc] at hmem
-    simp at hmem
-    exact hw c (List.mem_of_getElem? hc) hmem.symm
+    exact hw c (List.mem_of_getElem? hc) w hmem rfl
 
 theorem propagate_st (D : NetD) (s : State Int) : (propagateAll D.design s).st = s.st :=
   C04.fold_propLeaf_st D.design D.comb _ s
